@@ -81,7 +81,7 @@ sh(f"git -C {WT} clean -fdq")
 dst = os.path.join(VERIF, "seeded", a.name)
 os.makedirs(dst, exist_ok=True)
 for f in ("patch.diff", "demo_test.py", "notes.md"):
-    if os.path.exists(os.path.join(a.out_dir, f)):
+    if os.path.exists(os.path.join(a.out_dir, f)) and os.path.abspath(a.out_dir) != os.path.abspath(dst):
         shutil.copy(os.path.join(a.out_dir, f), os.path.join(dst, f))
 meta = {
     "breaks_property": a.prop,
